@@ -266,9 +266,12 @@ impl<T: RealNumber, M: Matrix<T>> ElasticNet<T, M> {
         let gamma = T::one() / (T::one() + l2_reg).sqrt();
         let padding = gamma * l2_reg.sqrt();
 
+        // the target is centred here, before padding: the optimizer centres whatever it is given,
+        // and centring the padded vector (n + p entries) would shift the padding rows as well
+        let y_mean = y.mean();
         let mut y2 = M::RowVector::zeros(n + p);
         for i in 0..y.len() {
-            y2.set(i, y.get(i));
+            y2.set(i, y.get(i) - y_mean);
         }
 
         let mut x2 = M::zeros(n + p, p);
